@@ -149,6 +149,8 @@ func c03(tier string) []*explore.Scenario {
 		}
 	}
 	out = append(out, c03Foreign())
+	// over the HTTP transport: the caller sees the handler's outcome, not a reset for a message that overtook its stream's opening
+	out = append(out, explore.Sharded(c19HTTPOrder("C03", 2, 2), 8)...)
 	for _, kind := range []string{"Unary", "Bidi", "SStream", "CStream"} {
 		out = append(out, c03HandlerErrorValues("C03", kind, 0))
 	}
@@ -168,6 +170,10 @@ func c03(tier string) []*explore.Scenario {
 	// the outcome was delivered (one message + the status fit the client's queues) and then the read side fails
 	for _, fail := range []bool{true, false} {
 		out = append(out, c03LateReaderF("SStream", 1, fail, 64, true), c03LateReaderF("Bidi", 1, fail, 0, true), c03LateReaderF("SStream", 0, fail, 64, true))
+	}
+	// the same under every schedule with one deviation (which of two ready select arms a reader takes, who runs first)
+	for _, fail := range []bool{true, false} {
+		out = append(out, c03LateReaderFP("C03", "SStream", 1, fail, 64, true, 1), c03LateReaderFP("C03", "SStream", 0, fail, 64, true, 1), c03LateReaderFP("C03", "Bidi", 2, fail, 64, true, 1))
 	}
 	// a caller that reads late: bursts of up to 200 messages, then the handler's outcome
 	for _, m := range []int{2, 16, 17, 18, 40, 200} {
@@ -494,17 +500,25 @@ func c03LateReader(kind string, m int, fail bool, capn int) *explore.Scenario {
 // side fails; the caller then reads: what had already been delivered completely - the messages
 // and the handler's own status - is what it gets.
 func c03LateReaderF(kind string, m int, fail bool, capn int, readFails bool) *explore.Scenario {
-	fam := "C03/late-reader"
-	name := fmt.Sprintf("C03/late-reader/%s/m=%d/fail=%v/cap=%d", kind, m, fail, capn)
+	return c03LateReaderFP("C03", kind, m, fail, capn, readFails, 0)
+}
+
+func c03LateReaderFP(prop, kind string, m int, fail bool, capn int, readFails bool, bound int) *explore.Scenario {
+	fam := prop + "/late-reader"
+	name := fmt.Sprintf("%s/late-reader/%s/m=%d/fail=%v/cap=%d", prop, kind, m, fail, capn)
 	if readFails {
 		name += "/then-read-fails"
 	}
+	if bound > 0 {
+		name += fmt.Sprintf("/d=%d", bound)
+	}
 	return &explore.Scenario{
-		Name: name, Family: fam, Prop: "C03", Bound: 0,
+		Name: name, Family: fam, Prop: prop, Bound: bound,
 		Run: func() {
 			w := env.NewWorld()
 			d := env.NewDirect(w, env.DirectOpts{Pipe: env.PipeOpts{Cap: capn, Serialize: true}})
 			vsched.Settle()
+			vsched.Explore(bound > 0)
 			var herr error
 			if fail {
 				st, _ := status.New(codes.FailedPrecondition, "burst then failure").WithDetails(&env.Msg{Value: []byte("detail")})
